@@ -1364,7 +1364,7 @@ package url
 //@            && ($i == 3 ==> ipv4 == pre(ipv4) + numbers[0] * 16777216 + numbers[1] * 65536 + numbers[2] * 256)
 
 //@ func (*parser).parseIPv6
-//@   requires p != nil && u != nil && cur(input) && !input.eof && input.pointer == -1
+//@   requires p != nil && u != nil && cur(input) && !input.eof && input.pointer == -1 && off(input.runes) == 0
 //@   modifies u.validationErrors, u.validationErrors[..], u.isIPv6, input.pointer, input.eof
 //@   ensures arr(u.validationErrors) == old(arr(u.validationErrors)) || fresh(u.validationErrors)
 //@   ensures result1 == nil ==> u.isIPv6   [C08]
@@ -1375,11 +1375,17 @@ package url
 //@   loop 1 invariant arr(u.validationErrors) == old(arr(u.validationErrors)) || fresh(u.validationErrors)
 //@   loop 1 invariant arr(u.validationErrors) == pre(arr(u.validationErrors)) || freshL(u.validationErrors)
 //@   loop 1 invariant forall j int :: (pieceIdx <= j && j < 8) ==> address[j] == 0   [C08 unparsed-pieces-are-zero]
+//@   loop 1 step prev(c) == 0x3A ==> (pieceIdx == prev(pieceIdx) + 1 && compress == pieceIdx && prev(compress) < 0
+//@            && (forall j int :: (0 <= j && j < 8) ==> address[j] == prev(address[j])))   [C08 double-colon-marks-the-compression]
+//@   loop 1 step prev(c) != 0x3A ==> (pieceIdx == prev(pieceIdx) + 1 && compress == prev(compress) && 0 <= (input.pointer - prev(input.pointer) - (input.eof ? 0 : 1)) && (input.pointer - prev(input.pointer) - (input.eof ? 0 : 1)) <= 4
+//@            && address[prev(pieceIdx)] == specHexAcc(content(input.runes), prev(input.pointer), (input.pointer - prev(input.pointer) - (input.eof ? 0 : 1)))
+//@            && (forall j int :: (0 <= j && j < 8 && j != prev(pieceIdx)) ==> address[j] == prev(address[j])))   [C08 piece-is-the-value-of-its-hex-digits]
 //@   loop 1 decreases input.length - input.pointer
 //@   loop 2 modifies input.pointer, input.eof
 //@   loop 2 invariant cur(input) && 0 <= length && length <= 4 && 0 <= value && value < 65536 && (length == 0 ==> (value == 0 && !input.eof))
 //@   loop 2 invariant (length == 1 ==> value < 16) && (length == 2 ==> value < 256) && (length == 3 ==> value < 4096)   [C08 at-most-four-hex-digits]
 //@   loop 2 invariant input.pointer == pre(input.pointer) + length && input.pointer >= 0
+//@   loop 2 invariant off(input.runes) == 0 && value == specHexAcc(content(input.runes), pre(input.pointer), length)   [C08 piece-is-the-value-of-its-hex-digits]
 //@   loop 2 invariant (input.eof || c == input.runes[input.pointer]) && (input.eof ==> c == 0xFFFD)
 //@   loop 2 decreases 4 - length
 //@   loop 3 modifies u.validationErrors, u.validationErrors[..], input.pointer, input.eof, address[..]
